@@ -156,7 +156,8 @@ def balanced_const_writes(v, f, pidx):
 
 def elementwise_same_index(v, f):
     """every store of f has the form out[i] (op)= g(in...[i]) inside one loop, or is a scalar field copy"""
-    eff, st, ex = run_function(v, f, hooks=Hooks())
+    from sa import summ as _summ
+    eff, st, ex = run_function(v, f, hooks=_summ.LOCAL_HELPERS)        # file-local helpers and closures are part of f
     for x in flat(eff):
         if x["e"] == "call" and x.get("usr") in v.defs:
             return False
@@ -191,7 +192,9 @@ def elementwise_same_index(v, f):
         for x in effs:
             if x["e"] == "store" and not ok_store(x, lv):
                 return False
-            if x["e"] == "loop" and not scan(x["body"], lv + [x["var"]]):
+            if x["e"] == "loop" and not scan(x["body"] + (x.get("latch") or []), lv + [x["var"]]):
+                return False
+            if x["e"] == "inlined" and not scan(x["body"], lv):
                 return False
             if x["e"] in ("while", "asm", "unknown"):
                 return False
